@@ -142,6 +142,16 @@ ENV_PROFILES = [{}, {}, {"LC_ALL": "xx_XX.UTF-8"}, {"LC_ALL": None, "LANG": "en_
 INTERPRETER_FLAGS = [[], [], ["-O"], ["-OO"], ["-bb"], ["-W", "error"], ["-X", "dev"], ["-s", "-S"]]
 
 
+def stdin_text(argv, answers):
+    """The answers as the text standard input delivers: a line each; for one script in five the LAST line has no line
+    end (an answers file without a final newline, `printf 'N\\nL'`), which is still a line."""
+    import zlib
+    t = "".join(a + "\n" for a in answers)
+    if answers and answers[-1] and zlib.crc32(repr((list(answers), list(argv), "eol")).encode("utf-8", "replace")) % 5 == 0:
+        t = t[:-1]
+    return t
+
+
 def env_profile(argv, answers):
     import zlib
     return ENV_PROFILES[zlib.crc32(repr((list(argv), list(answers))).encode("utf-8", "replace")) % len(ENV_PROFILES)]
@@ -171,7 +181,7 @@ def run_inprocess(argv, answers):
 
 def run_inprocess_(argv, answers):
     L = lib()
-    fin = io.StringIO("".join(a + "\n" for a in answers))
+    fin = io.StringIO(stdin_text(argv, answers))
     fout, ferr = io.StringIO(), io.StringIO()
     raw = None
     if all(ord(ch) < 128 for ch in "".join(list(argv) + list(answers))):
@@ -220,7 +230,7 @@ def run_subprocess(argv, answers):
     flags = INTERPRETER_FLAGS[zlib.crc32(repr((list(answers), list(argv))).encode("utf-8", "replace")) % len(INTERPRETER_FLAGS)]
     try:
         p = subprocess.run([sys.executable, "-B"] + flags + ["-m", "cvss.cvss_calculator"] + list(argv), cwd=bootstrap.REPO, env=env,
-                           input="".join(a + "\n" for a in answers).encode("utf-8"), stdout=subprocess.PIPE,
+                           input=stdin_text(argv, answers).encode("utf-8"), stdout=subprocess.PIPE,
                            stderr=subprocess.PIPE, timeout=120)
     except subprocess.TimeoutExpired:
         return {"exit": None, "exc": "watchdog", "out": "", "err": ""}
